@@ -537,38 +537,131 @@ pub fn gen_c02(sh: &mut Shards, o: &Opts) -> serde_json::Value {
         let (w, h) = if (k / 23) % 2 == 1 && !o.mini { crate::util::huge(k / 23 / 2 + o.seed as usize) } else { crate::util::big(k / 23) };
         let px: Vec<[f32; 3]> = (0..w * h).map(|_| [rng.f32_in(-0.5, 1.5), rng.f32_in(-0.5, 1.5), rng.f32_in(-0.5, 1.5)]).collect();
         let idx = crate::util::probe_indices(w * h, w, &mut rng);
-        let sel: Vec<[f32; 3]> = idx.iter().map(|&i| px[i]).collect();
-        let rgb = Rgb::new(px, w, h, tc(13), cp(1)).expect("rgb ctor");
-        let mut s = String::new();
-        let _ = write!(s, "\"ev\":\"enc\",\"probe\":1,\"cfg\":{},\"st\":{st},\"w\":{w},\"h\":{h},\"rgb\":", c.json());
-        list(&mut s, &sel, px_fx);
-        let mut fin = |s: &mut String, r: Result<(usize, usize, String, [Vec<u16>; 3]), String>| match r {
-            Ok((wo, ho, cfgo, planes)) => {
-                let _ = write!(s, ",\"res\":\"ok\",\"wo\":{wo},\"ho\":{ho},\"cfgo\":{cfgo},\"out\":[");
-                for p in 0..3 {
-                    if p > 0 {
-                        s.push(',');
-                    }
-                    let v: Vec<u16> = idx.iter().map(|&i| planes[p][i]).collect();
-                    list(s, &v, |o, x| {
-                        let _ = write!(o, "{x}");
-                    });
-                }
-                s.push(']');
-            }
-            Err(e) => {
-                let _ = write!(s, ",\"res\":\"{e}\"");
-            }
-        };
-        if st == 8 {
-            fin(&mut s, crate::util::guard(|| Yuv::<u8>::try_from((&rgb, c.yuv_config()))).unwrap_or(Err(yuvxyb::ConversionError::UnsupportedMatrixCoefficients)).map(|y| (y.width(), y.height(), cfg_json_of(&y.config()), [plane_samples(&y, 0), plane_samples(&y, 1), plane_samples(&y, 2)])).map_err(|e| crate::frames::err_name_conv(e).to_string()));
-        } else {
-            fin(&mut s, crate::util::guard(|| Yuv::<u16>::try_from((&rgb, c.yuv_config()))).unwrap_or(Err(yuvxyb::ConversionError::UnsupportedMatrixCoefficients)).map(|y| (y.width(), y.height(), cfg_json_of(&y.config()), [plane_samples(&y, 0), plane_samples(&y, 1), plane_samples(&y, 2)])).map_err(|e| crate::frames::err_name_conv(e).to_string()));
-        }
+        let s = if st == 8 { enc_probe_body::<u8>("", &c, st, &px, w, h, &idx) } else { enc_probe_body::<u16>("", &c, st, &px, w, h, &idx) };
         sh.emit(&s);
         evals += (w * h) as u64;
     }
+    // schedules: 8 threads encoding different configurations at once in a fresh process
+    if !o.mini {
+        if let Ok(o2) = std::process::Command::new(std::env::current_exe().expect("exe")).args(["concworker", "enc", "--seed", &o.seed.to_string()]).stderr(std::process::Stdio::null()).output() {
+            if o2.status.success() {
+                for line in String::from_utf8_lossy(&o2.stdout).lines() {
+                    if line.starts_with("\"ev\"") {
+                        sh.emit(line);
+                    }
+                }
+            } else {
+                sh.emit(&format!("\"ev\":\"enc\",\"probe\":1,\"conc\":[-1,0],\"cfg\":{},\"st\":8,\"w\":1,\"h\":1,\"rgb\":[],\"res\":\"abort:{}\"", all_matrix_cfgs()[0].0.json(), o2.status.to_string().replace('"', "'")));
+            }
+        }
+    }
     serde_json::json!({"pixels": evals, "configs": cfgs})
+}
+
+/// a large 4:4:4 encode: converted whole, logged at the probed positions plus wherever the whole-frame codes differ from
+/// the codes of the same pixels encoded in 509-pixel strips (untrusted screen, selects positions only)
+fn enc_probe_body<T: Pixel>(extra: &str, c: &Cfg, st: u8, px: &[[f32; 3]], w: usize, h: usize, idx: &[usize]) -> String {
+    let enc = |p: &[[f32; 3]], pw: usize, ph: usize| -> Result<(usize, usize, String, [Vec<u16>; 3]), String> {
+        crate::util::guard_s(|| {
+            let rgb = Rgb::new(p.to_vec(), pw, ph, tc(13), cp(1)).map_err(|_| "ctor".to_string())?;
+            let y = Yuv::<T>::try_from((&rgb, c.yuv_config())).map_err(|e| crate::frames::err_name_conv(e).to_string())?;
+            Ok((y.width(), y.height(), cfg_json_of(&y.config()), [plane_samples(&y, 0), plane_samples(&y, 1), plane_samples(&y, 2)]))
+        })
+    };
+    let whole = enc(px, w, h);
+    let mut idx: Vec<usize> = idx.to_vec();
+    if let Ok((_, _, _, planes)) = &whole {
+        if w * h > 4096 && planes.iter().all(|p| p.len() == w * h) {
+            let mut diff: Vec<usize> = Vec::new();
+            let mut at = 0usize;
+            for chunk in px.chunks(509) {
+                if let Ok((_, _, _, pp)) = enc(chunk, chunk.len(), 1) {
+                    for i in 0..chunk.len() {
+                        if (0..3).any(|p| pp[p].get(i) != planes[p].get(at + i)) {
+                            diff.push(at + i);
+                        }
+                    }
+                }
+                at += chunk.len();
+            }
+            if diff.len() > 48 {
+                let step = diff.len() / 32;
+                let mut d2: Vec<usize> = diff[..8].to_vec();
+                d2.extend_from_slice(&diff[diff.len() - 8..]);
+                d2.extend(diff.iter().skip(8).step_by(step.max(1)).take(32));
+                diff = d2;
+            }
+            idx.extend(diff);
+            idx.sort_unstable();
+            idx.dedup();
+        }
+    }
+    let sel: Vec<[f32; 3]> = idx.iter().map(|&i| px[i]).collect();
+    let mut s = String::new();
+    let _ = write!(s, "\"ev\":\"enc\",\"probe\":1,{extra}\"cfg\":{},\"st\":{st},\"w\":{w},\"h\":{h},\"rgb\":", c.json());
+    list(&mut s, &sel, px_fx);
+    match whole {
+        Ok((wo, ho, cfgo, planes)) if planes.iter().all(|p| p.len() == w * h) => {
+            let _ = write!(s, ",\"res\":\"ok\",\"wo\":{wo},\"ho\":{ho},\"cfgo\":{cfgo},\"out\":[");
+            for p in 0..3 {
+                if p > 0 {
+                    s.push(',');
+                }
+                let v: Vec<u16> = idx.iter().map(|&i| planes[p][i]).collect();
+                list(&mut s, &v, |o, x| {
+                    let _ = write!(o, "{x}");
+                });
+            }
+            s.push(']');
+        }
+        Ok(_) => s.push_str(",\"res\":\"shape\""),
+        Err(e) => {
+            let _ = write!(s, ",\"res\":\"{e}\"");
+        }
+    }
+    s
+}
+/// SCHEDULES: 8 threads encode with different configurations at the same moment in a fresh process
+pub fn conc_worker_enc(o: &Opts) {
+    use std::sync::{Arc, Barrier};
+    let nthreads = 8usize;
+    let barrier = Arc::new(Barrier::new(nthreads));
+    let seed = o.seed;
+    let cfgs = all_matrix_cfgs();
+    let handles: Vec<_> = (0..nthreads)
+        .map(|j| {
+            let b = barrier.clone();
+            let (c, st) = cfgs[(j * 41 + (seed as usize) * 3 + 7) % cfgs.len()];
+            std::thread::spawn(move || {
+                let mut rng = Rng::new(seed, 0x0202_c0c0 + j as u64);
+                let (w, h) = [(250usize, 164usize), (322, 128)][j % 2];
+                let px: Vec<[f32; 3]> = (0..w * h).map(|_| [rng.f32_in(-0.25, 1.25), rng.f32_in(-0.25, 1.25), rng.f32_in(-0.25, 1.25)]).collect();
+                let mut idx: Vec<usize> = (0..6).chain(w * h - 6..w * h).collect();
+                for _ in 0..16 {
+                    idx.push(rng.below((w * h) as u64) as usize);
+                }
+                idx.sort_unstable();
+                idx.dedup();
+                let mut out = Vec::new();
+                b.wait();
+                for round in 0..2 {
+                    let extra = format!("\"conc\":[{j},{round}],");
+                    out.push(if st == 8 { enc_probe_body::<u8>(&extra, &c, st, &px, w, h, &idx) } else { enc_probe_body::<u16>(&extra, &c, st, &px, w, h, &idx) });
+                }
+                out
+            })
+        })
+        .collect();
+    let stdout = std::io::stdout();
+    let mut lock = stdout.lock();
+    use std::io::Write as _;
+    for hd in handles {
+        if let Ok(lines) = hd.join() {
+            for s in lines {
+                let _ = writeln!(lock, "{s}");
+            }
+        }
+    }
 }
 
 // ---------------------------------------------------------------------------------------------
